@@ -17,7 +17,7 @@ def derive_seed(*parts) -> int:
 
 
 class Choices:
-    __slots__ = ("rng", "prefix", "draws", "pos", "labels", "keep_labels")
+    __slots__ = ("rng", "prefix", "draws", "pos", "labels", "keep_labels", "index", "base_seed")
 
     def __init__(self, seed: Optional[int] = None, prefix: Optional[Sequence[int]] = None, keep_labels: bool = False):
         self.rng = random.Random(seed) if (seed is not None and prefix is None) else None
@@ -26,6 +26,8 @@ class Choices:
         self.labels: List[str] = []
         self.keep_labels = keep_labels
         self.pos = 0
+        self.index = None      # run index / VERIF_SEED of a batch run (None in replay): used by systematic sweeps only
+        self.base_seed = None
 
     # -- primitive ---------------------------------------------------------
     def draw(self, n: int, label: str = "") -> int:
@@ -47,6 +49,27 @@ class Choices:
         if self.keep_labels:
             self.labels.append(label)
         return v
+
+    def draw_or(self, v: int, n: int, label: str = "") -> int:
+        """A draw whose value is decided by the caller (systematic enumeration) unless a prefix is being replayed;
+        recorded like any other draw, so the draw list stays the authoritative replay content."""
+        if n <= 1:
+            return 0
+        if self.prefix is not None:
+            return self.draw(n, label)
+        v = max(0, min(n - 1, v))
+        self.pos += 1
+        self.draws.append(v)
+        if self.keep_labels:
+            self.labels.append(label)
+        return v
+
+    def adopt(self, draws: Sequence[int]) -> None:
+        """Record draws made on another Choices object (same generator code) as this run's own."""
+        self.draws.extend(draws)
+        self.pos += len(draws)
+        if self.keep_labels:
+            self.labels.extend([""] * len(draws))
 
     def weighted(self, weights: Sequence[int], label: str = "") -> int:
         """Index i with probability weights[i]/sum; the *index* is what is recorded (0 = simplest)."""
